@@ -207,6 +207,24 @@ class _ScriptThrow(Exception):
         self.value = value
 
 
+# Specified `length` of built-in functions that is not 1
+_BUILTIN_ARITY = {
+    # 0
+    "pop": 0, "shift": 0, "reverse": 0, "trim": 0, "trimStart": 0, "trimEnd": 0,
+    "trimLeft": 0, "trimRight": 0, "toUpperCase": 0, "toLowerCase": 0, "toString": 0,
+    "valueOf": 0, "random": 0, "now": 0, "keys": 0, "values": 0, "entries": 0,
+    "toJSON": 0, "normalize": 0, "flat": 0, "toLocaleString": 0,
+    # 2
+    "slice": 2, "splice": 2, "substring": 2, "substr": 2, "split": 2, "replace": 2,
+    "replaceAll": 2, "padStart": 2, "padEnd": 2, "max": 2, "min": 2, "pow": 2,
+    "atan2": 2, "hypot": 2, "imul": 2, "parseInt": 2, "assign": 2, "create": 2,
+    "parse": 2, "setPrototypeOf": 2, "getOwnPropertyDescriptor": 2, "copyWithin": 2,
+    "defineProperties": 2, "is": 2, "apply": 2, "subarray": 2, "lastIndexOf": 1,
+    # 3
+    "defineProperty": 3, "stringify": 3,
+}
+
+
 class VM:
     """JavaScript virtual machine."""
 
@@ -1381,6 +1399,17 @@ class VM:
         if callable(obj):
             if key_str in ("call", "apply", "bind"):
                 return self._make_callable_method(obj, key_str)
+            if key_str in ("name", "length"):
+                # Built-in functions know their name when they were read as a
+                # method or installed under one; length is the specified arity
+                name = getattr(obj, "_js_method", None) or getattr(
+                    obj, "_js_name", None
+                )
+                if name is None:
+                    return UNDEFINED
+                if key_str == "name":
+                    return name
+                return _BUILTIN_ARITY.get(name.rpartition(" ")[2], 1 if name else 0)
             return UNDEFINED
 
         return UNDEFINED
@@ -1886,6 +1915,10 @@ class VM:
 
                 def bound(*call_args):
                     return target(*bound_args, *call_args)
+
+                inner = getattr(fn, "_js_method", None) or getattr(fn, "_js_name", None)
+                if inner is not None:
+                    bound._js_name = "bound " + inner
 
             return bound
 
